@@ -15,6 +15,9 @@ import (
 type methodCache[R CacheableResult] struct {
 	mu           sync.Mutex
 	cachedValues map[string]*cacheEntry[R]
+	// gen counts invalidations. A result is only cached if no invalidation
+	// happened since the request that produced it was issued; see putIfCurrent.
+	gen uint64
 }
 
 type cacheEntry[R CacheableResult] struct {
@@ -54,15 +57,43 @@ func (mc *methodCache[R]) put(key string, result R) {
 	}
 }
 
+// generation returns the current invalidation count. Callers read it before
+// issuing a request and pass it to putIfCurrent with the response.
+func (mc *methodCache[R]) generation() uint64 {
+	mc.mu.Lock()
+	defer mc.mu.Unlock()
+	return mc.gen
+}
+
+// putIfCurrent is like put, but drops the result if the cache was invalidated
+// since gen was read: a response computed before a change must not be cached
+// after the notification about that change has been handled.
+func (mc *methodCache[R]) putIfCurrent(key string, result R, gen uint64) {
+	mc.mu.Lock()
+	defer mc.mu.Unlock()
+	if mc.gen != gen {
+		return
+	}
+	if mc.cachedValues == nil {
+		mc.cachedValues = make(map[string]*cacheEntry[R])
+	}
+	mc.cachedValues[key] = &cacheEntry[R]{
+		result:     result,
+		receivedAt: time.Now(),
+	}
+}
+
 func (mc *methodCache[R]) invalidate() {
 	mc.mu.Lock()
 	defer mc.mu.Unlock()
+	mc.gen++
 	clear(mc.cachedValues)
 }
 
 func (mc *methodCache[R]) invalidateKey(key string) {
 	mc.mu.Lock()
 	defer mc.mu.Unlock()
+	mc.gen++
 	delete(mc.cachedValues, key)
 }
 
